@@ -159,6 +159,13 @@ def check_point(ctx, case):
             return
         ok = close(exp, got, scale)
         bad = fin & ~ok
+        if bad.any() and 'atan2' in str(string):
+            # on the branch cut of atan2 the sign of a rounding-level (or signed-zero) argument decides between +pi and -pi:
+            # values that differ by a whole turn are the same angle
+            turn = np.abs(np.abs(np.asarray(exp, dtype=float) - np.asarray(got, dtype=float)) - 2 * np.pi) < 1e-9
+            if (bad & turn).any():
+                ctx.count('point:atan2_branch_cut_not_judged', int((bad & turn).sum()))
+            bad = bad & ~turn
         if bad.any():
             k = int(np.argmax(bad))
             ctx.fail('generated_value_differs',
